@@ -58,6 +58,7 @@ type RC struct {
 	KeepLog bool
 	caseH   uint64
 	phase   string
+	soft    bool
 	// set by the scenario to override the default (>=2 scheduling decisions)
 	nontrivialSet bool
 }
@@ -90,11 +91,26 @@ func (rc *RC) Pick(w ...int) int {
 	return len(w) - 1
 }
 
-// Fail records the first failure of the run.
-func (rc *RC) Fail(class, format string, args ...any) {
+// FailSoft records a failure that a later Fail of the same run replaces:
+// used for mismatches that belong to a known finding, so that the run can go
+// on looking for anything else (which then takes precedence).
+func (rc *RC) FailSoft(class, format string, args ...any) {
 	if rc.Rec.Fail != nil {
 		return
 	}
+	rc.Fail(class, format, args...)
+	rc.soft = true
+}
+
+// Failed reports a recorded failure that ends the run (not a soft one).
+func (rc *RC) Failed() bool { return rc.Rec.Fail != nil && !rc.soft }
+
+// Fail records the first failure of the run.
+func (rc *RC) Fail(class, format string, args ...any) {
+	if rc.Rec.Fail != nil && !rc.soft {
+		return
+	}
+	rc.soft = false
 	d := fmt.Sprintf(format, args...)
 	if len(d) > 6000 {
 		d = d[:6000] + "…"
@@ -102,7 +118,6 @@ func (rc *RC) Fail(class, format string, args ...any) {
 	rc.Rec.Fail = &Failure{Class: class, Detail: d}
 }
 
-func (rc *RC) Failed() bool { return rc.Rec.Fail != nil }
 
 // Notef appends to the decoded trace (kept only when logging).
 func (rc *RC) Notef(format string, args ...any) {
